@@ -7,10 +7,15 @@ C03 — property theorems (DESIGN.md §4 C03) over the model `Model/C03.lean`.
      both switches, every dimension count, key presence included.
   2. `reject_sound` — a rejected pod really exceeds a limit (leaf limit, min for a non-preemptible pod,
      or an ancestor's limit when parent checking is on).
-  3. `closed_loop_inv_partial`, `used_never_above_max`, `np_used_never_above_min` — over every history
-     of scheduling cycles and informer events that never lowers max/min, `used ≤ max` for every group
-     without child groups, for *every* group when parent checking is on, and `npUsed ≤ min`.
+  3. `closed_loop_inv_partial` (atomic scheduling cycles), `used_never_above_max`, `np_used_never_above_min` — over
+     every history of scheduling cycles and informer events that never lowers max/min, `used ≤ max` for every group
+     without child groups, for *every* group when parent checking is on, and `npUsed ≤ min`.  The quota updates
+     include allow-lent / is-parent flips (tree reset; `resetAll_inv` under `TreeConsistent`) and parent changes
+     (`reparent_inv` under `ReparentOK`), see `MetaOK`.
   4. `runtime_le_max` — the hypothesis `RuntimeOK` (runtime ≤ max) follows from C02 `runtime_bounds`.
+  5. `closed_loop_inv` (+ `used_never_above_max_interleaved`, `np_used_never_above_min_interleaved`) — the
+     interleaved form: informer events between the admitting PreFilter and its Reserve;
+     `interleaved_reparent_counterexample` — the one interleaving that breaks it.
 -/
 namespace KoordVerif.C03
 
@@ -501,11 +506,14 @@ theorem quotaAdd_inv (cp : Bool) (s : State) (n parent : Nat) (ip l : Bool) (mx 
     · exact hI.npLeMin g h (hsub _ _ hc) d hd m hm
     · rw [List.mem_singleton.mp h] at hm ⊢; exact hmn d m hm
 
-/-- which `UpdateQuota` events on a known group the closed-loop theorems cover: meta unchanged (max/min only), or
-    an allow-lent / is-parent flip (tree reset) of an accounting-consistent state (C01; `TreeConsistent` is tested by
-    the harness before every generated reset). -/
-def MetaOK (_cp : Bool) (s : State) (q : Quota) (parent : Nat) (ip l : Bool) (mx mn : RL) : Prop :=
-  q.parent = parent ∧ ((q.isParent = ip ∧ q.lent = l) ∨ TreeConsistent (quotaMeta s q.name ip l mx mn))
+/-- which `UpdateQuota` events on a known group the closed-loop theorems cover: meta unchanged (max/min only); an
+    allow-lent / is-parent flip (tree reset) of an accounting-consistent state (C01; `TreeConsistent` is tested by the
+    harness before every generated reset); a parent change that satisfies `ReparentOK` (the moved usage is consistent
+    and fits where it arrives — moving a subtree is not an admission; the harness generates only such moves in the
+    closed-loop streams and tests the consistency clauses on the implementation's report). -/
+def MetaOK (cp : Bool) (s : State) (q : Quota) (parent : Nat) (ip l : Bool) (mx mn : RL) : Prop :=
+  (q.parent = parent ∧ ((q.isParent = ip ∧ q.lent = l) ∨ TreeConsistent (quotaMeta s q.name ip l mx mn))) ∨
+  (q.parent ≠ parent ∧ ReparentOK cp s q parent ip l mx mn)
 
 theorem quotaSet_inv (cp : Bool) (s : State) (n parent : Nat) (ip l : Bool) (mx mn : RL) (hn : n ≠ rootName)
     (hmx : ∀ d v, mx d = some v → 0 ≤ v) (hmn : ∀ d v, mn d = some v → 0 ≤ v)
@@ -519,15 +527,20 @@ theorem quotaSet_inv (cp : Bool) (s : State) (n parent : Nat) (ip l : Bool) (mx 
     have h0 := hnl q0 hq
     have hnl' : ∀ q, findQ s.quotas n = some q → NotLowered q.max mx ∧ NotLowered q.min mn :=
       fun q hq' => ⟨(hnl q hq').1, (hnl q hq').2.1⟩
-    obtain ⟨hpar, hrest⟩ := h0.2.2
+    have hq0n := (findQ_some hq).2
     by_cases hm : q0.parent = parent ∧ q0.isParent = ip ∧ q0.lent = l
     · rw [if_pos hm]
       exact quotaMaxMin_inv cp s n mx mn hn hnl' hI
-    · rw [if_neg hm, if_neg (by simpa using hpar)]
-      rcases hrest with h | hT
-      · exact absurd ⟨hpar, h⟩ hm
-      · rw [(findQ_some hq).2] at hT
-        exact resetAll_inv cp _ hT (quotaMeta_inv cp s n ip l mx mn hn hnl' hI)
+    · rw [if_neg hm]
+      rcases h0.2.2 with ⟨hpar, hrest⟩ | ⟨hpar, hR⟩
+      · rw [if_neg (by simpa using hpar)]
+        rcases hrest with h | hT
+        · exact absurd ⟨hpar, h⟩ hm
+        · rw [hq0n] at hT
+          exact resetAll_inv cp _ hT (quotaMeta_inv cp s n ip l mx mn hn hnl' hI)
+      · rw [if_pos hpar]
+        exact reparent_inv cp s q0 parent ip l mx mn (by rw [hq0n]; exact hq) (by rw [hq0n]; exact hn)
+          ⟨h0.1, h0.2.1⟩ hR hI
 
 /-- history events: a scheduling cycle (PreFilter, then Reserve iff admitted) or any other event. -/
 inductive Ev where
@@ -592,11 +605,13 @@ theorem runEv_inv (cp : Bool) (s : State) (e : Ev) (hI : Inv cp s) (hok : EvOK c
     | podDelete id => exact podDelete_inv cp s id hI
 
 /-
-Full statement (DESIGN §4 C03 T3): as below, but with arbitrary informer events (unreserve / delete of
-other pods, pod adds, max/min raises, runtime refreshes) allowed *between* the admitting PreFilter and
-its Reserve.  Proved here for histories in which a scheduling cycle is atomic (`Ev.cycle`); the
-interleaved form needs the extra invariant "the admitted pod still fits" to be carried through every
-other event and is left open.  The harness does exercise the interleaved form against the oracle.
+DESIGN §4 C03 T3 for histories in which a scheduling cycle is atomic (`Ev.cycle` = PreFilter + Reserve iff admitted).
+The full statement — arbitrary informer events (unreserve / delete / add of any pod, max/min raises, runtime
+refreshes, stale attempts) *between* the admitting PreFilter and its Reserve — is `closed_loop_inv` in §5 below; it
+carries "the admitted pod still fits" (`Fits`) through every other event.  What stays outside: a quota update that
+registers a group, resets the tree or re-parents a group while an admission is open drops that admission
+(`dropsPending`); for a re-parented group on the admitted pod's path this is necessary
+(`interleaved_reparent_counterexample`), the other two cases are exercised by the harness oracle only.
 -/
 theorem closed_loop_inv_partial (cp : Bool) : ∀ (evs : List Ev) (s : State), Inv cp s → Valid cp s evs →
     Inv cp (evs.foldl runEv s) := by
@@ -802,13 +817,6 @@ theorem fits_map (cp : Bool) (s : State) (f : Quota → Quota) (pods' : List Pod
     | true =>
       simp only [hnp, if_true] at h1 ⊢
       omega
-
-theorem map_id_of_forall {qs : List Quota} (f : Quota → Quota) (h : ∀ g ∈ qs, f g = g) : qs.map f = qs := by
-  induction qs with
-  | nil => rfl
-  | cons x xs ih =>
-    simp only [List.map_cons]
-    rw [h x List.mem_cons_self, ih (fun g hg => h g (List.mem_cons_of_mem _ hg))]
 
 /-- `Fits` looks at the pod only through its group, request and preemptibility, and not at the pod table. -/
 theorem fits_congr (cp : Bool) (s : State) (pods' : List Pod) (p p' : Pod) (q : Quota)
@@ -1153,5 +1161,41 @@ theorem interleaved_reparent_counterexample :
       [(0, none, 6), (1, some 10, 0), (2, some 4, 6), (3, some 10, 6)] := by
   decide
 
+
+/-! #### non-vacuity of §5 and of the meta updates -/
+
+section Examples2
+
+/-- root ← 1 (is-parent, max 4,8) ← 2 (max 4,8) and root ← 3 (is-parent, max 4,8): pod 1 (3,1) is admitted in group 2
+    (parent checking on), pod 2 (1,1) is admitted next but pod 1 is rolled back and deleted BEFORE pod 2's Reserve;
+    then group 2 — with pod 2's usage — moves below group 3, and finally group 1's allow-lent flag flips (reset). -/
+def ex2Evs : List IEv :=
+  [ .ext (.quotaSet 1 0 true true exMax exMax), .ext (.quotaSet 2 1 false true exMax (exReq 2 2)),
+    .ext (.quotaSet 3 0 true true exMax exMax),
+    .ext (.podDef 1 2 false (exReq 3 1)), .ext (.podAdd 1), .ext (.podDef 2 2 true (exReq 1 1)), .ext (.podAdd 2),
+    .prefilter 1 ⟨false, true⟩, .reserve,
+    .prefilter 2 ⟨false, true⟩, .ext (.unreserve 1), .ext (.podDelete 1), .reserve,
+    .ext (.quotaSet 2 3 false true exMax (exReq 2 2)),
+    .ext (.quotaSet 1 0 true false exMax exMax) ]
+
+def ex2At (k : Nat) : IState := (ex2Evs.take k).foldl runI ⟨init 2, none⟩
+
+/-- pod 2's admission stays open across the roll-back and the deletion of pod 1 … -/
+example : ((ex2At 10).pend, (ex2At 11).pend, (ex2At 12).pend, (ex2At 13).pend) = (some 2, some 2, some 2, none) := by
+  decide
+
+/-- … its Reserve books (1,1), non-preemptible, on the whole path … -/
+example : ((ex2At 13).st.quotas.map fun g => (g.name, g.used 0, g.npUsed 1, g.selfUsed 0)) =
+    [(0, 1, 1, 0), (1, 1, 1, 0), (2, 1, 1, 1), (3, 0, 0, 0)] := by decide
+
+/-- … the move takes it from group 1 and adds it to group 3 (the moved group is re-created at the end of the list) … -/
+example : ((ex2At 14).st.quotas.map fun g => (g.name, g.parent, g.used 0, g.npUsed 1, g.selfUsed 0)) =
+    [(0, 0, 1, 1, 0), (1, 0, 0, 0, 0), (3, 0, 1, 1, 0), (2, 3, 1, 1, 1)] := by decide
+
+/-- … and the tree reset rebuilds exactly the same numbers. -/
+example : ((ex2At 15).st.quotas.map fun g => (g.name, g.lent, g.used 0, g.npUsed 1, g.selfUsed 0)) =
+    [(0, false, 1, 1, 0), (1, false, 0, 0, 0), (3, true, 1, 1, 0), (2, true, 1, 1, 1)] := by decide
+
+end Examples2
 
 end KoordVerif.C03
